@@ -37,7 +37,7 @@ ASSUMPTIONS = ["SQLite executes a committed sqlx transaction atomically and isol
                "one transaction per task, keys distinct across tasks (needed only for aborted_leave_no_trace)"]
 TRUSTED = ["modelled not verified: SQLite, sqlx, tokio primitives (see assumptions); cancellation inside a single SQL statement is covered only as before/after"]
 RULE = ("quick: all schedules of 2 tasks over a fixed small program set up to length 7 that follow a mini-simulator's enabled labels "
-        "(sampled), plus ~260 random scenarios (2-4 tasks, 0-3 writes, commit/rollback/drop/error, cancel points anywhere incl. while "
+        "(sampled), plus ~205 random scenarios (2-4 tasks, 0-3 writes, commit/rollback/drop/error, cancel points anywhere incl. while "
         "waiting/granted/inside commit, rollback-task steps interleaved, disabled labels mixed in), in-memory and temp-file stores; "
         "slot scenarios (78 quick / 708 thorough): transaction T (commit/rollback/drop/error, future dropped anywhere) with a helper future "
         "that issues T's statements through the real associate()/store.tx and is parked INSIDE the slot-mutex critical section "
